@@ -461,7 +461,11 @@ where
             let ping_out = self.zmtp_engine.on_tick(std::time::Instant::now());
             for action in ping_out.net_actions {
               if let NetAction::Send { data, .. } = action {
-                egress_buffer.push_priority(data);
+                if self.zmtp_engine.is_passthrough() {
+                  egress_buffer.push_priority(data);
+                } else {
+                  egress_buffer.push(data, 0); // sealed records must stay in order
+                }
               }
             }
             for action in ping_out.app_actions {
@@ -505,7 +509,11 @@ where
                 for action in engine_out.net_actions {
                   match action {
                     NetAction::Send { data, .. } => {
-                      egress_buffer.push_priority(data);
+                      if self.zmtp_engine.is_passthrough() {
+                        egress_buffer.push_priority(data);
+                      } else {
+                        egress_buffer.push(data, 0); // sealed records must stay in order
+                      }
                     }
                     NetAction::SetCork(enable) => {
                       #[cfg(target_os = "linux")]
